@@ -65,7 +65,7 @@ MCNext ==
           \/ \E c \in Clients, ts \in TsSet :
                /\ NEv < MaxEvents
                /\ SendMessage(c, G, [name |-> NextName, ts |-> ts, rank |-> 0, now |-> 1],
-                              [id |-> "m" \o ToString(NEv + 1), claimed |-> c, content |-> "t", ca |-> ts, idr |-> NEv])
+                              [id |-> "m" \o ToString(NEv + 1), claimed |-> c, content |-> "t", ca |-> ts, idr |-> NEv, preset |-> ""])
                /\ Track
           \/ \E c \in Clients, e \in DOMAIN ev :
                /\ Holds(c, e)
